@@ -97,6 +97,10 @@ def pure_menu(k):
         ('error:cell_to_children_coarser', 'cell_to_children', (c7, 3), False),
         ('error:cell_to_parent_finer', 'cell_to_parent', (c7, 12), False),
         ('error:hex_to_u64_bad', 'hex_to_u64', ('not-hex',), False),
+        # resolution 30 is advertised but cannot be encoded (known finding of C05): such calls raise today and must leave nothing behind
+        ('error:lonlat_to_cell_r30', 'lonlat_to_cell', ((12.5, 41.9), 30), False),
+        ('error:cell_to_children_r30', 'cell_to_children', (rm_child29(c7), 30), False),
+        ('error:uncompact_r30', 'uncompact', ([sib[1]], 30), False),
         ('uncompact:after_error_a', 'uncompact', ([sib[0], sib[1]], 9), False),
         ('uncompact:after_error_b', 'uncompact', ([res0[2]], 2), False),
         ('cell_to_parent', 'cell_to_parent', (c7, 1), False),
@@ -118,6 +122,12 @@ def pure_menu(k):
     ]
 
 
+def rm_child29(c7):
+    from vf import refmodel as rm
+    p = rm.decode(c7)
+    return rm.encode(p + (1,) * (30 - len(p)))
+
+
 def rm_child(c7):
     from vf import refmodel as rm
     return rm.encode(rm.decode(c7) + (2, 1))
@@ -133,6 +143,7 @@ class InjectedAbort(BaseException):
     """stands for KeyboardInterrupt / MemoryError / a timeout signal arriving in the middle of a call"""
 
 
+ABORT_PURE = ['hex_to_u64', 'u64_to_hex', 'cell_to_parent', 'get_resolution', 'get_num_cells', 'cell_area', 'cell_to_children:quad_a', 'compact:plain', 'uncompact:one_level']
 ABORT_EVENTS = ['lonlat_to_cell:f03t2edge', 'cell_to_boundary:f03t2edge', 'cell_to_lonlat:f03t2edge', 'cell_to_boundary:f07t5in', 'low:cell_to_boundary:seg1:r1:f00t1',
                 'low:cell_to_boundary:auto:r0:f11t6', 'compact:sib', 'uncompact', 'cell_to_children:world', 'get_res0_cells', 'cell_to_boundary:default_r7']
 
@@ -339,10 +350,11 @@ def run(tier, t0):
     acc.strata['tie_cluster_histories'] = len(cl_tasks)
     phase('clusters')
     # ---- fault enumeration: every abort point of selected calls, then probe calls
-    ab_events = [by_name[n] for n in ABORT_EVENTS if n in by_name]
-    probes = ab_events[:8] + [by_name[n] for n in ('lonlat_to_cell:f03t1in', 'cell_to_boundary:f03t3in', 'cell_to_children') if n in by_name]
+    ab_events = [by_name[n] for n in ABORT_EVENTS + ABORT_PURE if n in by_name]
+    probes = ab_events[:8] + [by_name[n] for n in ['lonlat_to_cell:f03t1in', 'cell_to_boundary:f03t3in', 'cell_to_children'] + ABORT_PURE if n in by_name]
     cap = (4, 2) if tier == 'quick' else None
-    ab_tasks = [(ev, probes, {p[0]: expected[p[0]] for p in probes}, cap, (3, i)) for ev in ab_events for i in range(3)]
+    ab_tasks = [(ev, probes, {p[0]: expected[p[0]] for p in probes}, cap, (3, i)) for ev in ab_events for i in range(3 if ev[0] not in ABORT_PURE else 1)]
+    ab_tasks = [t if t[0][0] not in ABORT_PURE else (t[0], t[1], t[2], t[3], None) for t in ab_tasks]
     for name, out, skipped in many(abort_explore, ab_tasks):
         acc.n['abort_points_skipped_by_occurrence_cap'] += skipped
         for kk, site, bad in out:
@@ -365,7 +377,7 @@ def run(tier, t0):
     acc.sample({'pristine_state_hash': h0, 'distinct_states': len(seen)})
     rule = (f'event menu of {len(full)} public calls (12 faces x 10 triangles x inside/near-edge x lonlat_to_cell, cell_to_boundary, cell_to_lonlat + 18 other calls, mutate-the-result variants); '
             f'all histories of length 1 over the menu, length 2 over {len(menu2)} events, length 3 over {len(sub)} events (extended only from histories that reached a new library state), '
-            'and 4 saturation histories (whole menu in 4 orders, then every event again); tie clusters; fault enumeration: 11 calls aborted by an injected exception at every line event '
+            'and 4 saturation histories (whole menu in 4 orders, then every event again); tie clusters; fault enumeration: 20 calls aborted by an injected exception at every line event '
             '(quick: first 4 / last 2 occurrences per site) followed by 16 probe calls; a state is the canonical hash of everything reachable from the a5 module globals')
     return common.finish(PID, LEVEL, tier, acc, t0, rule, [
         'the oracle value of an event is the value of the single call in a process forked from a pristine import; 16 of them per run are compared with genuinely fresh interpreters',
